@@ -56,8 +56,11 @@ HAZ_FOR = {
 }
 
 
-def case_flags(rng, idx):
+def case_flags(rng, idx, force=None):
+    """``force=(tmode, hazard)`` overrides the random choice of mode and hazard (development / replay aid)"""
     tmode = TMODES[idx % len(TMODES)] if idx < 2 * len(TMODES) else rng.choice(TMODES)
+    if force:
+        tmode = force[0]
     gm = GENMODE[tmode]
     f = {'mode': gm}
     f['n_kernels'] = rng.choice([2, 3, 3, 4])
@@ -84,6 +87,8 @@ def case_flags(rng, idx):
     # one case in 6 carries a hazard construct (known / suspected defect mechanisms stay in their slice)
     if idx % 6 == 5 and tmode in HAZ_FOR:
         hz = rng.choice(HAZ_FOR[tmode])
+    if force:
+        hz = force[1]
     f['hazard'] = hz
     if hz == 'tb_nested_function':
         f['nest'] = max(f['nest'], 2)
